@@ -57,7 +57,9 @@ func shortFunc(fn string) string {
 		return fn[len(risorMod)+1:]
 	}
 	if strings.HasPrefix(fn, risorMod+".") {
-		return "risor" + fn[len(risorMod):]
+		// same naming as internal/props/racelog (used by C06, C07): functions of the root package
+		// appear without a package qualifier
+		return fn[len(risorMod)+1:]
 	}
 	return fn
 }
@@ -85,9 +87,12 @@ func (r *raceReport) hasRisorFrame() bool {
 	return innermostRisor(r.A) != "" || innermostRisor(r.B) != ""
 }
 
+// noRisor names a stack without a frame in a risor package (same wording as internal/props/racelog).
+const noRisor = "(non-risor code)"
+
 func orDash(s string) string {
 	if s == "" {
-		return "-"
+		return noRisor
 	}
 	return s
 }
